@@ -404,6 +404,7 @@ fn vals(ty: &Ty) -> Vec<(String, Val)> {
 struct Emit {
   top: Vec<ItemDef>,
   n: usize,
+  memo: Vec<(String, String)>,
 }
 
 impl Emit {
@@ -412,9 +413,15 @@ impl Emit {
     format!("tN{}", self.n)
   }
   fn named(&mut self, ty: &Ty) -> String {
+    // the same referenced type is one definition, however often the tree refers to it
+    let key = format!("{:?}", ty);
+    if let Some((_, n)) = self.memo.iter().find(|(k, _)| *k == key) {
+      return n.clone();
+    }
     let name = self.fresh();
     let d = self.def(ty, &name);
     self.top.push(d);
+    self.memo.push((key, name.clone()));
     name
   }
   fn def(&mut self, ty: &Ty, name: &str) -> ItemDef {
@@ -480,6 +487,9 @@ fn wraps(x: &Ty) -> Vec<Ty> {
   out.push(Ty::CollRef(Box::new(x.clone())));
   out.push(Ty::Comp(vec![("a".into(), x.clone()), ("b".into(), plain_number.clone())]));
   out.push(Ty::CollComp(vec![("a".into(), x.clone()), ("b".into(), plain_number)]));
+  // one definition referred to twice from the same tree: by two components, and by a component and a collection
+  out.push(Ty::Comp(vec![("a".into(), Ty::Ref(Box::new(x.clone()), false)), ("b".into(), Ty::Ref(Box::new(x.clone()), false))]));
+  out.push(Ty::Comp(vec![("a".into(), Ty::Ref(Box::new(x.clone()), false)), ("b".into(), Ty::CollRef(Box::new(x.clone())))]));
   out
 }
 
@@ -527,7 +537,7 @@ fn eval_text(text: &str) -> Option<Value> {
 
 fn check_type(run: &Run, cnt: &Cnt, ty: &Ty) {
   cnt.models.fetch_add(1, Ordering::Relaxed);
-  let mut em = Emit { top: vec![], n: 0 };
+  let mut em = Emit { top: vec![], n: 0, memo: vec![] };
   let type_name = match ty {
     Ty::Builtin(b) => b.type_ref().to_string(),
     _ => {
@@ -713,7 +723,7 @@ pub fn sample_models() -> Vec<String> {
   ];
   let mut out = vec![];
   for ty in trees {
-    let mut em = Emit { top: vec![], n: 0 };
+    let mut em = Emit { top: vec![], n: 0, memo: vec![] };
     let d = em.def(&ty, "tT");
     em.top.push(d);
     let mut m = Model::new("https://verif/c11", "c11");
